@@ -51,6 +51,8 @@ pub struct RqCfg {
 thread_local! {
     /// the request carries the headers of an ordinary form / API post (credentials, cookie, content description)
     pub static LOGIN_HEADERS: std::cell::Cell<bool> = std::cell::Cell::new(false);
+    /// the next Sim declares the request's body framing in the prepare state (Flow::header) instead of on the request object
+    pub static FRAMING_IN_PREPARE: std::cell::Cell<bool> = std::cell::Cell::new(false);
     /// the request carries header names with more than one value (accept, cookie, via on two lines each)
     pub static REPEATED_HEADERS: std::cell::Cell<bool> = std::cell::Cell::new(false);
 }
@@ -83,7 +85,7 @@ impl RqCfg {
             }
             b = b.header("expect", "100-continue");
         }
-        match self.framing.as_str() {
+        match if FRAMING_IN_PREPARE.with(|x| x.get()) { "" } else { self.framing.as_str() } {
             "cl0" => b = b.header("content-length", "0"),
             "cl2" => b = b.header("content-length", "2"),
             "chunked" => b = b.header("transfer-encoding", "chunked"),
@@ -171,13 +173,16 @@ impl EarlyMsg {
             "refuseBare" => ["HTTP/1.1 403 Forbidden\r\n\r\n", "HTTP/1.1 417 Expectation Failed\r\n\r\n", "HTTP/1.1 200 OK\r\n\r\n",
                              "HTTP/1.1 102 Processing\r\n\r\n", "HTTP/1.1 199 \r\n\r\n", "HTTP/1.1 101 Switching Protocols\r\n\r\n",
                              // no reason phrase and no space after the code: not what the grammar says, but what servers send
-                             "HTTP/1.1 403\r\n\r\n", "HTTP/1.0 503 \r\n\r\n"][variant % 8].into(),
+                             "HTTP/1.1 403\r\n\r\n", "HTTP/1.0 503 \r\n\r\n",
+                             // statuses beyond the registered classes are statuses too
+                             "HTTP/1.1 999 Request denied\r\n\r\n", "HTTP/1.1 600 Custom\r\n\r\n"][variant % 10].into(),
             "refuseFields" => ["HTTP/1.1 403 Forbidden\r\nX-A: b\r\nContent-Length: 0\r\n\r\n", "HTTP/1.1 413 Too Large\r\nContent-Length: 0\r\nX-B: c\r\n\r\n",
                                "HTTP/1.1 403 Forbidden\r\nConnection: keep-alive\r\nContent-Length: 0\r\n\r\n", "HTTP/1.0 401 No\r\nConnection: Keep-Alive\r\nContent-Length: 0\r\n\r\n",
                                // everyday refusals whose first field line ends well beyond 64 bytes
                                "HTTP/1.1 417 Expectation Failed\r\nDate: Mon, 27 Jul 2009 12:28:53 GMT\r\nContent-Length: 0\r\n\r\n",
                                "HTTP/1.1 401 Unauthorized\r\nWWW-Authenticate: Basic realm=\"a realm with a rather long descriptive name\", charset=\"UTF-8\"\r\nContent-Length: 0\r\n\r\n",
-                               "HTTP/1.1 500 Internal Server Error\r\nContent-Type: text/plain; charset=utf-8\r\nContent-Length: 0\r\n\r\n"][variant % 7].into(),
+                               "HTTP/1.1 500 Internal Server Error\r\nContent-Type: text/plain; charset=utf-8\r\nContent-Length: 0\r\n\r\n",
+                               "HTTP/1.1 999 Request denied\r\nContent-Length: 0\r\n\r\n", "HTTP/1.1 302 Found\r\nLocation: /login\r\nContent-Length: 0\r\n\r\n"][variant % 9].into(),
             _ => ["HTTP/1.1 403 Forbidden\r\nConnection: close\r\nX-A: b\r\n\r\n", "HTTP/1.0 403 Forbidden\r\nConnection: close\r\nX-A: b\r\n\r\n"][variant % 2].into(),
         };
         // now and then the server ends its lines with a bare LF (outside the grammar, accepted by common parsers)
@@ -204,7 +209,7 @@ impl EarlyMsg {
             cl: if text.contains("Content-Length: 0") { "zero".into() } else { "absent".into() },
             te: "absent".into(),
             conn: if text.contains("Connection: close") { "close".into() } else if text.to_ascii_lowercase().contains("connection: keep-alive") { "keepalive".into() } else { "absent".into() },
-            loc: None,
+            loc: text.find("Location: ").map(|i| text[i + 10..].split(|c| c == '\r' || c == '\n').next().unwrap_or("").to_string()),
             reason: String::new(),
         }
     }
@@ -261,9 +266,26 @@ fn ev_call(t: &mut Tracer, st: &str, op: &str, mut v: Value) {
 
 impl Sim {
     pub fn new(t: &mut Tracer, rq: RqCfg, early: Option<EarlyMsg>, v: usize, note: &str) -> Option<Sim> {
-        let f = guarded(|| Flow::new(rq.request()))?.ok()?;
+        let prep = FRAMING_IN_PREPARE.with(|x| x.get()) && rq.framing != "default";
+        let built = guarded(|| Flow::new(rq.request()));
+        FRAMING_IN_PREPARE.with(|x| x.set(false));
+        let mut f = built?.ok()?;
+        if prep {
+            // the way ureq itself declares the framing: on the flow, after looking at the body it was given
+            let r = match rq.framing.as_str() {
+                "cl0" => guarded(|| f.header("content-length", "0")),
+                "cl2" => guarded(|| f.header("content-length", "2")),
+                "chunked" => guarded(|| f.header("transfer-encoding", "chunked")),
+                fr if fr.starts_with("cl:") => guarded(|| f.header("content-length", &fr[3..])),
+                _ => Some(Ok(())),
+            };
+            r?.ok()?;
+            t.class("flow:framing-declared-in-prepare");
+        }
+        let mut cfg = rq.json();
+        cfg["prep"] = json!(prep);
         t.case(json!({"ev":"case","comp":"flow","rq":{"method":rq.method,"ver10":rq.ver10,"expect":rq.expect,"connclose":rq.connclose},
-                      "cfg": rq.json(), "early": early.as_ref().map(|e| e.kind.clone()).unwrap_or_else(|| "none".into()), "note": note}));
+                      "cfg": cfg, "early": early.as_ref().map(|e| e.kind.clone()).unwrap_or_else(|| "none".into()), "note": note}));
         Some(Sim { fb: FlowBox::Prepare(f), rq, early, took100: false, final_seen: false, body: vec![], bpos: 0, rstep: 0, v, calls: 0 })
     }
 
@@ -494,10 +516,25 @@ impl Sim {
             let r = guarded(|| f.write(input, &mut out));
             let ready = guarded(|| f.can_proceed());
             match (r, ready) {
-                (Some(Ok((c, p))), Some(rd)) => ev_call(t, "SendBody", "sb_write", json!({"res":"ok","c":c,"p":p,"ready":rd,"inl":input.len(),"outl":outl})),
-                (Some(Err(e)), Some(rd)) => ev_call(t, "SendBody", "sb_write", json!({"res":"err","c":0,"p":0,"ready":rd,"inl":input.len(),"outl":outl,"err":format!("{:?}", e)})),
+                (Some(Ok((c, p))), Some(rd)) => ev_call(t, "SendBody", "sb_write", json!({"res":"ok","c":c,"p":p,"ready":rd,"inl":input.len(),"outl":outl,"chunked":chunked})),
+                (Some(Err(e)), Some(rd)) => ev_call(t, "SendBody", "sb_write", json!({"res":"err","c":0,"p":0,"ready":rd,"inl":input.len(),"outl":outl,"chunked":chunked,"err":format!("{:?}", e)})),
                 _ => self.panic(t, "body write"),
             }
+        }
+    }
+
+    /// consume_direct_write(amt) in the send-body state (a caller that hands body bytes to the transport itself)
+    pub fn op_sb_direct(&mut self, t: &mut Tracer, amt: usize) {
+        self.calls += 1;
+        if let FlowBox::SendBody(f) = &mut self.fb {
+            let r = guarded(|| f.consume_direct_write(amt));
+            let ready = guarded(|| f.can_proceed());
+            match (r, ready) {
+                (Some(Ok(())), Some(rd)) => ev_call(t, "SendBody", "sb_direct", json!({"res":"ok","amt":amt,"ready":rd})),
+                (Some(Err(e)), Some(rd)) => ev_call(t, "SendBody", "sb_direct", json!({"res":"err","amt":amt,"ready":rd,"err":format!("{:?}", e)})),
+                _ => self.panic(t, "consume_direct_write"),
+            }
+            t.class("flow:direct-write");
         }
     }
 
